@@ -1,14 +1,14 @@
 #!/bin/bash
 # Run every check's quick tier with several seeds from a `vp run --with-repo` snapshot (own copy of the
 # repository in $VP_RUN_REPO): looks for seeds on which a check raises an alarm on the unchanged tree.
-# usage (from a vp run): tools/snapshot_seeds.sh <seed>...      Not a registered command.
+# usage (from a vp run): [PROPS="C03 C09"] tools/snapshot_seeds.sh <seed>...      Not a registered command.
 set -u
 R=${VP_RUN_REPO:?needs vp run --with-repo}
 sed -i "s|/repo/crates|$R/crates|g" harness/Cargo.toml
 export VERIF_REPO=$R CARGO_NET_OFFLINE=true
 ./check --setup || exit 1
 for s in "$@"; do
-  for p in C01 C02 C03 C04 C05 C06 C07 C08 C09 C10 C11 C12 C13 C14 C15 C16 C17 C18 C19 C20; do
+  for p in ${PROPS:-C01 C02 C03 C04 C05 C06 C07 C08 C09 C10 C11 C12 C13 C14 C15 C16 C17 C18 C19 C20}; do
     VERIF_SEED=$s timeout 3600 ./check $p --tier quick 2>&1 | grep -E "VIOLATION|^\[$p\]" | cut -c1-220
   done
 done
